@@ -409,3 +409,22 @@ def c09(a):
               "jiff's own re-parse must return the same instant, fields, offset and zone.")
     c.assumptions = TRUSTED + ["the harness's independent TZif reader", "the global tz database (system zoneinfo) for re-parsing zone names"]
     return c.finish()
+
+
+@prop("C15")
+def c15(a):
+    c = Check("C15", a.tier, a.seed)
+    workdir("C15")
+    binary = build_harness()
+    if not a.replay:
+        c.add_mc(tlc_mc("MC_BigInt.tla", "MC_BigInt.cfg", os.path.join(workdir("C15", False), "mc"), workers=4))
+    drive_and_validate(c, a, binary, "c15", "Trace_Dur.tla")
+    c.rule = ("iso_span / iso_sd: ISO 8601 text of spans (every unit at its limit, both signs, sub-second carry cases, seeded "
+              "mixes) and durations (incl. i64 extremes), read by the independent ISO duration reader of Trace_Dur.tla (numbers "
+              "as BigInts): the text must denote the original and jiff's re-parse must agree. fr_span / fr_sd: the friendly "
+              "printer under a sweep of every option value (designator, spacing, direction, fractional unit x precision 0..9, "
+              "HH:MM:SS x precision, comma, padding, zero unit) plus seeded option mixes: the text must be accepted by the "
+              "parser; lossless configurations must return the identical value (after folding the units below the fractional "
+              "unit), lossy ones a value closer than one unit of the last printed digit (digits counted in the text).")
+    c.assumptions = TRUSTED + ["no independent reader for the friendly format (relations between original and re-parsed value only)"]
+    return c.finish()
